@@ -750,6 +750,35 @@ impl Scenario for C02 {
                 ops = p;
             }
         }
+        // value-shape changes on one key: a fifth of the programs rewrite one key two to four
+        // times with values of different families (embedding-carrying, scalar, container),
+        // mostly delete it afterwards and mostly take a checkpoint (what the store keeps
+        // beside the value - index registrations - has to follow every rewrite)
+        if rng.chance(1, 5) {
+            let k = if bare { *rng.pick(&[203u8, 204, 205, 207]) } else { rng.below(u64::from(nkeys)) as u8 };
+            let mut frag = Vec::new();
+            let mut fam = rng.below(3);
+            for _ in 0..rng.range(2, 4) {
+                u += 1;
+                let v = match fam {
+                    0 => *rng.pick(&[10u8, 11]),
+                    1 => rng.below(6) as u8,
+                    _ => rng.range(6, 9) as u8,
+                };
+                frag.push(Op::Put { k, v, u });
+                fam = (fam + 1 + rng.below(2)) % 3;
+            }
+            if rng.chance(3, 4) {
+                frag.push(Op::Del { k });
+            }
+            if rng.chance(3, 4) {
+                frag.push(Op::Checkpoint);
+            }
+            let at = rng.usize_below(ops.len() + 1);
+            for (i, o) in frag.into_iter().enumerate() {
+                ops.insert(at + i, o);
+            }
+        }
         // rotation only in a minority of runs: it is a separate risk (see DESIGN)
         let max_size = if rng.chance(1, 8) { rng.range(300, 2500) } else { 512 << 20 };
         let mode = if rng.chance(3, 4) {
